@@ -44,6 +44,10 @@ func numericTy(ty string) bool {
 }
 
 func (r *replayer) soundCase(c Case) {
+	if !r.probed {
+		r.probed = true
+		r.historyProbe()
+	}
 	if !c.Typed {
 		r.sum.Skipped["not statically typed"]++
 		return
